@@ -193,12 +193,14 @@ func natsdrainHarness(rc *RunCtx) {
 			bld = bld.WithHighWatermark([]time.Duration{time.Millisecond, 30 * time.Millisecond}[k-2])
 			rc.Fault("low-high-watermark")
 		}
-		srv := bld.
-			WithWorkerCount(uint(workers)).WithQueueLength(uint(qlen)).
-			WithRequestReceivedEventHandler(func(map[interface{}]interface{}) {}).
-			WithRequestStartedEventHandler(func(map[interface{}]interface{}) {}).
-			WithRequestFinishedEventHandler(func(map[interface{}]interface{}) {}).
-			Build()
+		bld = bld.WithWorkerCount(uint(workers)).WithQueueLength(uint(qlen))
+		if tp.Intn("hooks", 2) == 1 {
+			// application-supplied event hooks instead of the built-in ones (which time-stamp each request)
+			bld = bld.WithRequestReceivedEventHandler(func(map[interface{}]interface{}) {}).
+				WithRequestStartedEventHandler(func(map[interface{}]interface{}) {}).
+				WithRequestFinishedEventHandler(func(map[interface{}]interface{}) {})
+		}
+		srv := bld.Build()
 		serveDone := make(chan struct{}, 1)
 		siteServe := simrt.HarnessSite("drain.serve-done")
 		s.Go("serve", func() {
